@@ -8,8 +8,11 @@ package aggregations
 //@   props C04
 //@   mode int
 //@   requires r != nil && r.step > 0 && r.start <= r.end
-//@   requires r.start <= timestamp && timestamp <= r.end
+//@   requires r.start <= timestamp
 //@   ensures [aligned] (result - r.start) % r.step == 0
-//@   ensures [contains] result <= timestamp && timestamp - result < r.step
+//@   ensures [contains] implies(timestamp < r.end, result <= timestamp && timestamp - result < r.step)
+//@   ensures [last-bucket] implies(timestamp >= r.end && r.start < r.end, result < r.end && r.end - result <= r.step)
+//@   ensures [in-range] r.start <= result
+//@   pure
 //@   safe
 //@ end
